@@ -231,11 +231,11 @@ class C13(Property):
     def cases(self, budget_s):
         rng = self.rng
         if self.thorough:
-            kwo_cfgs = [((), ()), ((4,), ()), ((4,), ((4, 24),)), ((4, 5), ()), ((4, 5), ((4, 24),)),
-                        ((4, 5), ((5, 25),)), ((4, 5), ((4, 24), (5, 25)))]
+            kwo_cfgs = [((), ()), ((14,), ()), ((14,), ((14, 24),)), ((14, 15), ()), ((14, 15), ((14, 24),)),
+                        ((14, 15), ((15, 25),)), ((14, 15), ((14, 24), (15, 25)))]
             maxpos = 4
         else:
-            kwo_cfgs = [((), ()), ((4,), ()), ((4,), ((4, 24),)), ((4, 5), ((5, 25),))]
+            kwo_cfgs = [((), ()), ((14,), ()), ((14,), ((14, 24),)), ((14, 15), ((15, 25),))]
             maxpos = 3
         i = rng.randrange(64)
         for sig in self.base_sigs(maxpos, kwo_cfgs):
@@ -262,13 +262,16 @@ class C13(Property):
 
     def history_cases(self, rng, maxkwo):
         """FunctionBuilder histories: every op sequence of length <= 2 over a small alphabet, small signatures"""
-        kwo_cfgs = [((), ()), ((4,), ()), ((4,), ((4, 24),)), ((4, 5), ((5, 25),))][:2 + maxkwo]
+        kwo_cfgs = [((), ()), ((14,), ()), ((14,), ((14, 24),)), ((14, 15), ((15, 25),))][:2 + maxkwo]
         i = rng.randrange(64)
         for sig in self.base_sigs(2, kwo_cfgs):
             alpha = [['r', n] for n in sig['args'] + sig['kwonly']] + [['r', 6]]
             alpha += [['a', 6, None], ['a', 6, 41], ['k', 8, None], ['k', 8, 42], ['a', 8, 43]]
             if sig['args']:
                 alpha.append(['a', sig['args'][0], None])
+                alpha.append(['a', sig['args'][-1], None])      # after a removal: re-added without its old default
+            if sig['kwonly']:
+                alpha.append(['k', sig['kwonly'][0], None])
             seqs = [[]] + [[a] for a in alpha] + [[a, b] for a in alpha for b in alpha]
             names = sig['args'] + sig['kwonly'] + [6, 8]
             for ops in seqs:
@@ -329,7 +332,7 @@ class C13(Property):
 
     def deep_cases(self, budget_s):
         rng = self.rng
-        kwo_cfgs = [((), ()), ((4,), ()), ((4,), ((4, 24),)), ((4, 5), ((5, 25),)), ((4, 5), ((4, 24),))]
+        kwo_cfgs = [((), ()), ((14,), ()), ((14,), ((14, 24),)), ((14, 15), ((15, 25),)), ((14, 15), ((14, 24),))]
         i = 0
         for sig in self.base_sigs(3, kwo_cfgs):
             for inj, exp in self.plans(sig):
@@ -502,9 +505,10 @@ class C13(Property):
             obs['fb'] = {'names': names, 'required': list(fb.get_arg_names(only_required=True)),
                          'dd': [[n, vnum(dd[n]) if n in dd else None] for n in names],
                          'sig_str': fb.get_sig_str(with_annotations=False), 'inv_str': fb.get_invocation_str()}
-            fb.body = 'return %s_call(%s)' % ('await ' if fb.is_async else '', fb.get_invocation_str())
+            # (the harness's own name for the recorder: not one of the SPECIAL spellings)
+            fb.body = 'return %s_hcall_(%s)' % ('await ' if fb.is_async else '', fb.get_invocation_str())
             try:
-                w = fb.get_func(execdict={'_call': wrapper})
+                w = fb.get_func(execdict={'_hcall_': wrapper})
             except Exception as e:
                 obs['exc'] = exc_name(e)
                 obs['stage'] = 'get_func'
